@@ -311,6 +311,7 @@ UNITS = {
     'jit': dict(run=kani_unit(jit_unit.generate, harness_file='src/jit/harnesses.rs')),
     'clif': dict(run=kani_unit(clif.generate, harness_file='src/cranelift/harnesses.rs')),
     'cfgdiff': dict(run=cfgdiff_unit()),
+    'wfwitness': dict(run=native_unit(['wf-witness'], 'vacuity guard: a concrete instruction satisfies the precondition wf_facts of the per-opcode harnesses, opcode')),
     'asmtable': dict(run=native_unit(['asm-table'], 'assemble() of the documented mnemonic')),
 }
 
